@@ -4,9 +4,15 @@
     The wire format itself is stated in Coq as the shape [shape_of] / [env_of] (Sem/GoJson.v) of the
     documents of each analysed type; every document the real encoder writes must conform to it
     (vm_compute per document), and the lemmas below say what conformance means at union and struct
-    positions. The same shapes are what C03, C04 are proved against. *)
+    positions. The same shapes are what C03, C04 are proved against.
+
+    The round trip itself is a theorem about the codec model of Sem/GoVal.v: [encode] / [decode] are
+    json.Marshal / json.Unmarshal with the generated wrappers compiled in, directed by the wire shape,
+    over Go values in which every union-typed component holds a member value ([VUnion]). The model is
+    run (vm_compute) on every value the test binary marshals: [encode] must give the very document the
+    real encoder wrote and [decode] the very value the real decoder built (Corr/Check_C02.v). *)
 From Coq Require Import List String ZArith Bool.
-From GM Require Import Base.Result Facts.GoFacts Facts.Ana Model.Enums Model.Fields Model.Classify Model.SqlTypes Sem.GoJson Proofs.C02.
+From GM Require Import Base.Result Facts.GoFacts Facts.Ana Model.Enums Model.Fields Model.Classify Model.SqlTypes Sem.GoJson Sem.GoVal Proofs.C02 Proofs.C02rt.
 Import ListNotations.
 Local Open Scope string_scope.
 
@@ -25,5 +31,41 @@ Theorem C02_struct_wire_format : forall env f id fields j,
     (forall k sh opt, In (k, sh, opt) fields -> match assoc_json k l with Some v => conformsb env f sh v = true | None => opt = true end).
 Proof. exact struct_wire_format. Qed.
 
+(** Marshalling any value of the shape and unmarshalling the result yields the value back, a nil and an
+    empty slice or map counting as equal ([canon]); [encode] succeeding is "v is a value of the type whose
+    union-typed components hold member values" (it is computed on every value of every run). *)
+Theorem C02_round_trip : forall env, env_wf env = true -> forall f s v j,
+  encode env f s v = Some j ->
+  exists v', decode env f s j = Some v' /\ canon v' = canon v.
+Proof. exact round_trip. Qed.
+
+(** ... and the document conforms to the wire shape of the type, so that the two statements above apply to it *)
+Theorem C02_encoded_documents_conform : forall env, env_wf env = true -> forall f s v j,
+  encode env f s v = Some j -> conformsb env f s j = true.
+Proof. exact encode_conforms. Qed.
+
+(** on the wire an union value is {"Kind": <name of the member>, "Data": <the member's own document>} *)
+Theorem C02_union_value_on_the_wire : forall env f id members k w j,
+  lookup_def id env = Some (DUnion members) ->
+  encode env (S f) (ShRef id) (VUnion k w) = Some j ->
+  exists sh d, In (k, sh) members /\ encode env f sh w = Some d /\ j = JObj [("Data", d); ("Kind", JStr k)].
+Proof. exact union_value_on_the_wire. Qed.
+
+(** the premises are satisfiable: a struct with union fields, a nil named slice of unions, an omitted omitempty field *)
+Theorem C02_round_trip_example :
+  env_wf ex_env = true /\
+  encode ex_env 6 (ShRef "p.S") ex_value =
+    Some (JObj [("v", JObj [("Data", JObj [("x", JNum "3"); ("S", JArr [])]); ("Kind", JStr "A")]);
+                ("L", JArr []);
+                ("W", JObj [("Data", JNum "7"); ("Kind", JStr "N")])]) /\
+  option_map canon (match encode ex_env 6 (ShRef "p.S") ex_value with Some j => decode ex_env 6 (ShRef "p.S") j | None => None end)
+    = Some (canon ex_value).
+Proof. exact ex_round_trip. Qed.
+
+
 Print Assumptions C02_union_wire_format.
 Print Assumptions C02_struct_wire_format.
+Print Assumptions C02_round_trip.
+Print Assumptions C02_encoded_documents_conform.
+Print Assumptions C02_union_value_on_the_wire.
+Print Assumptions C02_round_trip_example.
